@@ -7,6 +7,7 @@
 //!   c14.walk            name and number trees with /Kids pointed at every object                   ↔ walkTree (calls, gets)
 //!   c14.page            page trees with arbitrary /Kids and lying /Count values                    ↔ page
 //!   c14.cs              colour-space arrays whose base / alternate points at every object         ↔ csLoad
+//!   c14.ap              appearance dictionaries whose values point at every object                ↔ apLoad
 //!   c14.prev            chains of cross-reference sections with arbitrary /Prev                    ↔ readChain
 //!   c14.xref            cross-reference streams with arbitrary /W, /Index and data                 ↔ xrefSections
 //!   c14.objstm          object streams with arbitrary /N, /First, offset tables                    ↔ objOffsets, objSlice
@@ -100,7 +101,8 @@ fn font_case(objs: &[FontObj], k: u64, tolerant: bool) -> (String, String) {
                 bodies.push("<< /Type /Font /Subtype /Type1 /BaseFont /Leaf >>".to_string());
             }
             FontObj::Type0(ds) => {
-                m.push(if ds.is_empty() { "n0".to_string() } else { format!("n0:{}", ds.iter().map(|d| format!("{}.0.x", d)).collect::<Vec<_>>().join("+")) });
+                // only the first element of /DescendantFonts is loaded
+                m.push(if ds.is_empty() { "n0".to_string() } else { format!("n0:{}.0.x", ds[0]) });
                 bodies.push(format!("<< /Type /Font /Subtype /Type0 /BaseFont /Comp /Encoding /Identity-H /DescendantFonts [{}] >>", ds.iter().map(|d| rf(*d)).collect::<Vec<_>>().join(" ")));
             }
         }
@@ -161,6 +163,14 @@ fn load_fonts(driver: &Driver, seed: u64, thorough: bool) -> Stream {
         }).collect();
         st.count(&format!("random objects={}", n));
         let (r, i) = font_case(&objs, 1 + rng.below(n), rng.chance(1, 2));
+        reqs.push(r);
+        imps.push(i);
+    }
+    // nesting around the limit of 64 loads in progress
+    for len in [2u64, 63, 64, 65, 66, 200] {
+        let mut objs: Vec<FontObj> = (1..len).map(|i| FontObj::Type0(vec![i + 1])).collect();
+        objs.push(FontObj::Leaf);
+        let (r, i) = font_case(&objs, 1, false);
         reqs.push(r);
         imps.push(i);
     }
@@ -246,6 +256,17 @@ fn load_pages(driver: &Driver, seed: u64, thorough: bool) -> Stream {
         let (r, i) = pages_case(&objs, 1 + rng.below(n), rng.chance(1, 2));
         reqs.push(r);
         imps.push(i);
+    }
+    // /Parent chains around the limit of 64 loads in progress (the last node has no parent)
+    for len in [2u64, 63, 64, 65, 66, 200] {
+        for tol in [false, true] {
+            let mut objs: Vec<PageObj> = vec![PageObj::Page(2)];
+            objs.extend((2..len).map(|i| PageObj::Pages(Some(i + 1))));
+            objs.push(PageObj::Pages(None));
+            let (r, i) = pages_case(&objs, 1, tol);
+            reqs.push(r);
+            imps.push(i);
+        }
     }
     ask(&mut st, driver, reqs, imps, |rq, _| rq.contains(':'));
     st
@@ -618,6 +639,73 @@ fn cs_stream(driver: &Driver, seed: u64, thorough: bool) -> Stream {
 }
 
 // ---------------------------------------------------------------------------------------------------
+// c14.ap
+
+#[derive(Clone, Debug)]
+enum ApObj { Stream, Dict(Vec<u64>), Bad }
+
+fn ap_case(objs: &[ApObj], k: u64) -> (String, String) {
+    let mut m = vec!["b".to_string()];
+    let mut bodies: Vec<(u64, Vec<u8>)> = vec![];
+    for (i, o) in objs.iter().enumerate() {
+        let id = i as u64 + 1;
+        match o {
+            ApObj::Stream => { m.push("s".into()); bodies.push((id, crate::pdfwrite::stream_body("/Type /XObject /Subtype /Form /BBox [0 0 1 1]", b"q Q"))); }
+            ApObj::Bad => { m.push("b".into()); bodies.push((id, b"[1 2]".to_vec())); }
+            ApObj::Dict(vs) => {
+                m.push(format!("d{}", vs.iter().map(|v| v.to_string()).collect::<Vec<_>>().join("+")));
+                bodies.push((id, format!("<< {} >>", vs.iter().enumerate().map(|(j, v)| format!("/S{} {}", j, rf(*v))).collect::<Vec<_>>().join(" ")).into_bytes()));
+            }
+        }
+    }
+    let req = format!("c14.ap {} {}", k, m.join(","));
+    bodies.push((901, b"<< /Type /Catalog /Pages 902 0 R >>".to_vec()));
+    bodies.push((902, b"<< /Type /Pages /Kids [] /Count 0 >>".to_vec()));
+    let bytes = build_doc(&bodies, "/Root 901 0 R");
+    let imp = guarded(|| match storage(bytes, false) {
+        None => "open-failed".into(),
+        Some(s) => match AppearanceStreamEntry::from_primitive(Primitive::Reference(PlainRef { id: k, gen: 0 }), &s.resolver()) { Ok(_) => "ok".into(), Err(_) => "err".into() },
+    });
+    (req, imp)
+}
+
+fn ap_stream(driver: &Driver, seed: u64, thorough: bool) -> Stream {
+    let mut st = Stream::new("c14.ap", true);
+    let (mut reqs, mut imps) = (vec![], vec![]);
+    let n = 3u64;
+    let mut optsv = vec![ApObj::Stream, ApObj::Bad, ApObj::Dict(vec![])];
+    for a in 0..=n + 1 {
+        optsv.push(ApObj::Dict(vec![a]));
+        for b in 1..=n {
+            optsv.push(ApObj::Dict(vec![a, b]));
+        }
+    }
+    for c in 0..optsv.len().pow(3) {
+        if !thorough && c % 4 != 0 { continue; }
+        let mut x = c;
+        let objs: Vec<ApObj> = (0..n).map(|_| { let o = optsv[x % optsv.len()].clone(); x /= optsv.len(); o }).collect();
+        let (r, i) = ap_case(&objs, 1 + (c as u64 % n));
+        reqs.push(r);
+        imps.push(i);
+    }
+    st.count(&format!("three-object graphs: {} cases", reqs.len()));
+    for case in 0..(if thorough { 3_000 } else { 300 }) {
+        let mut rng = Rng::derive(seed, "c14.ap", case);
+        let n = 2 + rng.below(6);
+        let objs: Vec<ApObj> = (1..=n).map(|i| match rng.below(6) {
+            0 | 1 | 2 => ApObj::Stream,
+            3 => ApObj::Bad,
+            _ => ApObj::Dict((0..rng.below(4)).map(|_| if rng.chance(2, 3) { (i + 1 + rng.below(n)).min(n) } else { rng.below(n + 2) }).collect()),
+        }).collect();
+        let (r, i) = ap_case(&objs, 1);
+        reqs.push(r);
+        imps.push(i);
+    }
+    ask(&mut st, driver, reqs, imps, |rq, _| rq.contains('d'));
+    st
+}
+
+// ---------------------------------------------------------------------------------------------------
 // c14.prev
 
 fn prev_stream(driver: &Driver, seed: u64, thorough: bool) -> Stream {
@@ -958,7 +1046,17 @@ pub fn witness_docs() -> Vec<Planted> {
     let mut o = base("", "<< /XObject << /X0 10 0 R >> >>");
     o.push((10, crate::pdfwrite::stream_body("/Type /XObject /Subtype /Image /Width 8 /Height 1 /BitsPerComponent 1 /ImageMask true /Filter /CCITTFaxDecode /DecodeParms << /K -1 /Columns 0 >>", &[0x80, 0, 0x10, 1])));
     doc("CCITT Columns 0", "images", o, "/Root 1 0 R");
+    // appearance dictionary that contains itself
+    let mut o = base("", "<< >>");
+    o[2].1 = b"<< /Type /Page /Parent 2 0 R /Resources << >> /Annots [8 0 R] >>".to_vec();
+    o.push((8, b"<< /Type /Annot /Subtype /Widget /Rect [0 0 1 1] /AP << /N 10 0 R >> >>".to_vec()));
+    o.push((10, b"<< /On 10 0 R >>".to_vec()));
+    doc("appearance dictionary contains itself", "annotations", o, "/Root 1 0 R");
     drop(doc);
+    out.push({ let mut p = ladder("fonts", 40); p.desc = format!("witness:{}", p.desc); p });
+    out.push({ let mut p = ladder("nametree", 40); p.desc = format!("witness:{}", p.desc); p });
+    out.push({ let mut p = deep_chain("parents", 3000); p.desc = format!("witness:{}", p.desc); p });
+    out.push({ let mut p = deep_chain("fonts", 3000); p.desc = format!("witness:{}", p.desc); p });
     // D34 and the object-stream offsets need their own layout
     out.push(Planted { frag: "xref-stream", desc: "witness:D34 W [0 0 0] with 2147483647 entries".into(), bytes: xref_stream_doc(["0", "0", "0"], Some("0 2147483647"), "5", [1, 4, 2], 0, None) });
     let spec = ObjStmSpec { n: "2".into(), first: "1".into(), header: "20 0 21 18446744073709551615 ".into(), body: b"11 [22] ".to_vec(), extends: None };
@@ -994,6 +1092,7 @@ pub fn streams(driver: &Driver, seed: u64, thorough: bool) -> Vec<Stream> {
         walk_stream(driver, seed, thorough),
         page_stream(driver, seed, thorough),
         cs_stream(driver, seed, thorough),
+        ap_stream(driver, seed, thorough),
         prev_stream(driver, seed, thorough),
         xref_stream(driver, seed, thorough),
         objstm_stream(driver, seed, thorough),
